@@ -553,6 +553,7 @@ func runC01(c *Check, w *World) {
 		}
 	}
 	ruleHistoryIndependence(c, w, tb, ef, "R01.H", gen)
+	checkRESTEndpoints(c, w, tb, ef, "R01.REST", "/hotp/generate")
 	c.Floor("R01.1", 11)
 	c.Floor("R01.2", 2)
 	c.Floor("R01.3", 1)
